@@ -68,12 +68,10 @@ Proof.
 Qed.
 
 (* well-formedness projections *)
-Lemma hold_ok_nth : forall d vs ch b fs, hold_ok d vs = true -> nth_error vs ch = Some (b, Some fs) ->
-  length fs = d /\ mk_key fs <> [].
+Lemma hold_ok_nth : forall d vs ch b fs, hold_ok d vs = true -> nth_error vs ch = Some (b, Some fs) -> length fs = d.
 Proof.
   induction vs as [|[b0 [fs0|]] vs IH]; intros ch b fs H Hn; destruct ch; cbn in *; try discriminate.
-  - inversion Hn; subst. apply andb_prop in H as [H _]. apply andb_prop in H as [H1 H2].
-    apply Nat.eqb_eq in H1. split; auto. intros X. rewrite X in H2. cbn in H2. discriminate.
+  - inversion Hn; subst. apply andb_prop in H as [H1 _]. now apply Nat.eqb_eq in H1.
   - apply andb_prop in H as [_ H]. eapply IH; eauto.
   - eapply IH; eauto.
 Qed.
